@@ -192,15 +192,33 @@ def install_message_models(reg):
             o = HObj("inst", VClass(cname, ci))
             for n, v in zip(names, args):
                 o.fields[n] = v
+            import ast as _ast
+            from pyvc.values import OptKw, mk_union, Unsupported
+            defaults = dict(zip(names[len(names) - len(m.args.defaults):], m.args.defaults))
             for k, v in kwargs.items():
-                if k != "**":
-                    o.fields[k] = v
+                if k == "**":
+                    continue
+                if isinstance(v, OptKw):
+                    # a keyword passed only on some paths (f(**d) with a conditionally filled dict): else the default
+                    if k not in names:
+                        ex.raise_if(state, v.g, "TypeError")
+                        continue
+                    if k in o.fields:
+                        ex.raise_if(state, v.g, "TypeError")
+                        continue
+                    if k not in defaults:
+                        raise Unsupported("optionally present keyword for a required parameter")
+                    dflt = ex.const(_ast.literal_eval(defaults[k]))
+                    o.fields[k] = mk_union([(v.g, v.v), (z3.Not(v.g), dflt)])
+                    continue
+                if k not in names or k in o.fields:
+                    ex.raise_if(state, z3.BoolVal(True), "TypeError")      # unexpected / duplicate keyword
+                    continue
+                o.fields[k] = v
             # parameters not given keep their declared defaults when those are literals
-            defaults = m.args.defaults
-            for n, d in zip(names[len(names) - len(defaults):], defaults):
+            for n, d in defaults.items():
                 if n not in o.fields:
                     try:
-                        import ast as _ast
                         o.fields[n] = ex.const(_ast.literal_eval(d))
                     except Exception:
                         pass
@@ -208,3 +226,4 @@ def install_message_models(reg):
         return model
     for cname in MESSAGE_CLASSES:
         models.CLASS_MODELS[cname] = mk(cname)
+        models.OPTKW_MODELS.add(cname)
